@@ -14,6 +14,7 @@ ver = json.load(open(f'{src}/verify.json')) if os.path.exists(f'{src}/verify.jso
 if os.path.exists(f'{src}/verify.log'):
     lines = open(f'{src}/verify.log', errors='replace').read().splitlines()
     open(f'{dst}/verify.log','w').write('\n'.join(lines[:400]))
+PROP = __import__("re").sub(r"^r\d-", "", ID)
 meta = {
   "property": __import__("re").sub(r"^r\d-", "", ID), "change": f"{ID}-{X}",
   "needs_to_manifest": needs,
@@ -26,7 +27,7 @@ meta = {
      "how": "tools/verify_seeded.sh in the scratch worktree /tmp/mut/%s (baseline nextest command, then the demo both ways); see verify.log" % ID,
   },
   "detected_by_check": detected,
-  "ran": [f"tools/seeded.py {ID} seeded/{ID}-{X}/patch.diff   # git -C /repo apply; bin/check {ID}; git -C /repo checkout -- ."],
+  "ran": [f"tools/seeded.py {PROP} /verif/seeded/{ID}-{X}/patch.diff   # git -C /repo apply; bin/check {PROP}; git -C /repo checkout -- ."],
 }
 json.dump(meta, open(f'{dst}/meta.json','w'), indent=1)
 print("kept", dst)
